@@ -523,7 +523,7 @@ class G:
         takes = [self.r.chance(1, 2) for _ in names]
         out = ["fn show(e) { if type(e) == String || type(e) == Num { return String.from(e); } return \"${type(e)}:${e.context}\"; }",
                "var started = [%s];" % ", ".join("false" for _ in names),
-               "var fibers = [];",
+               "var fibers = [];", "var shared = [];",
                "fn fcall(idx, takes, arg) {",
                "    var f = fibers[idx];",
                "    if !started[idx] { started[idx] = true; if takes { return f.call(arg); } return f.call(); }",
@@ -533,6 +533,11 @@ class G:
             body = ['print("%s start " + String.from(%s));' % (f, "a" if takes[i] else "nil")]
             local = self.fresh("loc")
             body.append("var %s = %d;" % (local, i * 10))
+            shares = self.r.chance(1, 2)
+            if shares:
+                # closures made BEFORE any yield keep sharing the fiber's local with the fiber across every later suspension
+                self.tag("capture-before-yield")
+                body.append("shared.push(|| %s); shared.push(|| { %s = %s + 100; return %s; });" % (local, local, local, local))
             for y in range(self.r.below(4)):
                 k = self.r.below(5)
                 if k == 1:
@@ -551,6 +556,8 @@ class G:
                     self.tag("yield")
                     body.append('var w%d = Fiber.yield(%s); print("%s w " + String.from(w%d));' % (y, local, f, y))
                 body.append("%s = %s + 1;" % (local, local))
+                if shares and self.r.chance(1, 2):
+                    body.append('print("%s local " + String.from(%s) + " shared " + String.from(shared[shared.len() - 2]()));' % (f, local))
             if self.r.chance(1, 12):
                 self.tag("fiber-throws")
                 body.append('throw "%s dies";' % f)
@@ -562,6 +569,8 @@ class G:
             arg = self.r.choice(['"x%d"' % s, str(s), '"throw"'])
             out.append('try { if fibers[%d].has_finished() { print("%s finished"); } else { print("main <- " + String.from(fcall(%d, %s, %s))); } } catch e { print("main err " + show(e)); }' % (
                 i, names[i], i, "true" if takes[i] else "false", arg))
+            if self.r.chance(1, 3):
+                out.append('for c in shared { print("shared " + String.from(c())); }')
         if "F16" not in self.avoid and self.r.chance(1, 2):
             self.tag("resume-without-arg")
             out += ['var fz = Fiber.new(|| { var g = Fiber.yield(1); print(g); return 2; });', "print(fz.call());", "print(fz.call());"]
